@@ -258,6 +258,15 @@ func buildRound(r *ev.Run, rng *rand.Rand, round int) []Spec {
 	for _, n := range []int{1, 150, 401} {
 		add(Spec{Kind: "ldblifecycle", Backend: "leveldb", IDGen: pick(rng, idGens), N: n})
 	}
+	// a delete of the pruning load fails, the load is retried with the same cache: the directed 2-region
+	// world (two overlapping regions of equal version) and generated worlds, both fault modes
+	for _, f := range []string{"fail-before", "lost-ack"} {
+		add(Spec{Kind: "retrydelete", Backend: "mem", IDGen: "dense1", N: 2, Fault: f})
+		add(Spec{Kind: "retrydelete", Backend: "leveldb", IDGen: "dense1", N: 2, Fault: f})
+		for k := 0; k < r.Pick(4, 8); k++ {
+			add(Spec{Kind: "retrydelete", Backend: pick(rng, []string{"mem", "mem", "leveldb"}), IDGen: pick(rng, idGens), N: []int{30, 120, 330}[rng.Intn(3)], Fault: f})
+		}
+	}
 	if th {
 		for k := 0; k < 2; k++ {
 			add(Spec{Kind: "etcdcancel", Backend: "etcd-own", IDGen: pick(rng, idGens), N: []int{330, 470}[rng.Intn(2)], W: 156})
@@ -331,6 +340,8 @@ func (x *runner) runCase(sp Spec) {
 		x.runLdbLifecycle(sp)
 	case "etcdcancel":
 		x.runEtcdCancel(sp)
+	case "retrydelete":
+		x.runRetryDelete(sp)
 	default:
 		x.r.Inconclusive("unknown case kind %q", sp.Kind)
 		return
@@ -405,7 +416,7 @@ func main() {
 			r.Inconclusive("no concurrent LoadRegionsOnce case had a load parked in flight")
 		}
 		for _, c := range []string{"interleave_writes_inside_a_running_load", "loads_failed_by_injected_read_fault", "prune_loads_failed_midway_then_retried",
-			"load_prune_cycles_on_a_long_lived_storage", "switch_loads_judged", "flushload_loads_that_overlapped_running_writers", "lifecycle_parent_cancelled_with_pending_batch"} {
+			"load_prune_cycles_on_a_long_lived_storage", "switch_loads_judged", "flushload_loads_that_overlapped_running_writers", "lifecycle_parent_cancelled_with_pending_batch", "prune_loads_failed_on_a_delete_then_retried"} {
 			if r.Counter(c) == 0 {
 				r.Inconclusive("coverage: counter %s is 0", c)
 			}
